@@ -21,7 +21,7 @@ func init() {
 	Register(&Monitor{
 		ID:    "C15",
 		Level: "exploration",
-		Rule: "token-level generated expression texts that ignore typing: any of the 31 function names with 0-4 arguments of any kind, all 13 axis names incl. namespace, variables, every operator between arbitrary operands, predicates and steps applied to non-node-set primaries, zero-argument forms; only texts Compile accepts are executed, each through Select (drained) and Evaluate (node-set results drained) on documents with hostile values, from element, attribute, text, comment and root contexts. round() is excluded from random generation (known finding KF-1) but pinned as a witness. " +
+		Rule: "token-level generated expression texts that ignore typing: any of the 31 function names with 0-4 arguments of any kind, all 13 axis names incl. namespace, variables, every operator between arbitrary operands, predicates and steps applied to non-node-set primaries, zero-argument forms; only texts Compile accepts are executed, each through Select (drained) and Evaluate (node-set results drained) on documents with hostile values, from element, attribute, text, comment and root contexts. round() is generated like every other function; an Evaluate result of Go type int whose top-level call is round() is the class of known finding KF-1 (call site) and reported through its pinned witness only. " +
 			"Non-trivial: the text was accepted by Compile and has >= 4 tokens; distinct by (text, mode, context kind).",
 		Assume:        []string{"a panic whose value implements runtime.Error is never raised deliberately by the package", "known finding KF-1: round() yields a Go int"},
 		MinNontrivial: tierN(40000, 1000000),
@@ -79,6 +79,11 @@ func (c *Case) c15Exec(src string, d *xdoc.Doc, ctx *xdoc.Node) {
 		case "bool", "number", "string", "nodeset":
 			c.Count("result:" + ev.Kind)
 		default:
+			if ev.GoType == "int" && topLevelRound(src) {
+				// known finding KF-1 (call site: the round() helper returns a Go int): reported once through its pinned witness
+				c.Count("known-finding-class:KF-1")
+				break
+			}
 			c.Violation("UNDOCUMENTED-RESULT-TYPE", det("Evaluate", ev.Kind+" "+ev.GoType))
 			return
 		}
@@ -96,6 +101,30 @@ func exoticDoc(g *xgen.G) *xdoc.Doc {
 	return g.Tree(o)
 }
 
+// topLevelRound reports whether the value of src is the value of a round() call (possibly parenthesised).
+func topLevelRound(src string) bool {
+	ast, err := xref.Parse(src)
+	if err != nil {
+		return false
+	}
+	for {
+		switch x := ast.(type) {
+		case xref.Group:
+			ast = x.X
+			continue
+		case xref.Neg:
+			// an even run of minus signs cancels in the parser: --round(x) is round(x)
+			if y, ok := x.X.(xref.Neg); ok {
+				ast = y.X
+				continue
+			}
+		case xref.Call:
+			return x.Name == "round"
+		}
+		return false
+	}
+}
+
 func c15Tok(c *Case) {
 	if !c.Canary(500) {
 		return
@@ -103,7 +132,7 @@ func c15Tok(c *Case) {
 	g := c.G()
 	d := exoticDoc(c.GShared("doc", int64(c.Index/32)))
 	ctx := d.Nodes[g.Intn(len(d.Nodes))]
-	src := g.TokExpr(1+g.Intn(3), true)
+	src := g.TokExpr(1+g.Intn(3), false)
 	c.c15Exec(src, d, ctx)
 	c.SampleEvery(9001, func() interface{} { return map[string]interface{}{"family": "tok", "expr": src, "ctx": ctx.Label()} })
 }
@@ -116,9 +145,6 @@ func c15Typed(c *Case) {
 	args := []string{"'a\u00a0'", "' x\u3000'", "'b\v'", "'é'", "'aé中'", "'abc'", "0.5", "0.25", "1", "'a'", "''", "true()", "a", "//b", "@id", "/", ".", "1 div 0", "0 div 0", "'[a'", "-1", "text()", "$v", "(a | b)", "a = b", "count(a)", "'$1'", "2.5", "string()", "position()", "last()", "..", "//@*", "reverse(a)", "1 = 1", "'1'"}
 	fns := xgen.AllFuncs
 	fn := fns[(c.Index/7)%len(fns)]
-	if fn == "round" {
-		fn = "floor"
-	}
 	n := g.Intn(5)
 	var as []string
 	for i := 0; i < n; i++ {
